@@ -55,6 +55,12 @@ class Gen:
     def _v_none(self, t, d):
         return None
 
+    def _v_stype(self, t, d):
+        cls = self.fam.get(t[1])
+        if self.fam.defs[t[1]]["flavour"] == "plain":
+            return cls(self.rng.randint(-5, 99), self.rng.choice(["", "x", "é y", "1"]))
+        return cls(self._v_date(("date",), d), self.rng.randint(-5, 99))
+
     def _v_int(self, t, d):
         r = self.rng
         return r.choice([0, 1, -1, 2**40, -2**63, 2**63 - 1, 2**70, r.randint(-1000, 1000), r.randint(-9, 9)])
